@@ -343,13 +343,15 @@ impl Suite for Api {
             Called::Ok(out) => {
                 impl_out = Sx::tagged("ok", vec![Sx::int(out.colnames.len()), Sx::int(out.columns.first().map(|c| c.1.len()).unwrap_or(0))]);
                 let cols = ex.as_ref().and_then(|e| e.table.as_ref()).and_then(|t| db::table_columns(t));
-                oracle = check_shape(out, ex.as_ref(), cols.as_ref());
-                if oracle.is_none() {
-                    if let Some(t) = ex.as_ref().and_then(|e| e.table.as_ref()) {
-                        if !table_exists(t) {
-                            oracle = Some(("unknown-table-answered".into(), format!("table {:?} does not exist but the query returned a result", t)));
-                        }
+                // unknown table => error comes first: a result for a missing table must not be
+                // attributed to a shape finding
+                if let Some(t) = ex.as_ref().and_then(|e| e.table.as_ref()) {
+                    if !table_exists(t) {
+                        oracle = Some(("unknown-table-answered".into(), format!("table {:?} does not exist but the query returned a result", t)));
                     }
+                }
+                if oracle.is_none() {
+                    oracle = check_shape(out, ex.as_ref(), cols.as_ref());
                 }
                 if oracle.is_none() && !panics.is_empty() {
                     oracle = Some((
